@@ -163,47 +163,66 @@ Print Assumptions write_never_fuel.
 
 Theorem write_ok_iff : forall b bs,
   b_write b = Ok bs <->
-  exists ts, headers_ok b = true /\ index_pres (b_ver b) (groups_of (ients_of b)) = Ok ts
+  exists ts, headers_ok b = true /\ url_checks b
+             /\ index_pres (b_ver b) (groups_of (ients_of b)) = Ok ts
              /\ prim_ok b /\ man_ok b /\ bs = final_bytes (b_ver b) (parsed_of b ts).
 Proof. exact BundleWriteWF.b_write_ok_iff. Qed.
 Print Assumptions write_ok_iff.
 
-(* panic: a URL that is not valid UTF-8 reaches EncodeTextString inside the index
-   callback (b1, or a URL with a single resource), or a b1 bundle has no primary
-   URL.  Groups are taken in order of first appearance of their URL (the Go map
-   iteration order is arbitrary; when several groups are bad, Go's outcome depends
-   on that order - the model fixes first-appearance order). *)
-Theorem write_panic_iff : forall b,
-  b_write b = Panic <->
-  headers_ok b = true /\
-  (IndexPanics b \/ (IndexFine b /\ b_ver b = BV1 /\ b_primary b = None /\ manifest_fine b)).
-Proof. exact BundleWriteCases.write_panic_iff. Qed.
-Print Assumptions write_panic_iff.
+(* NEVER a panic.  The two panics the writer had are gone: a b1 bundle without
+   primary URL (nil dereference) is an error, and checkURL refuses an exchange URL
+   that is not valid UTF-8 before EncodeTextString can meet it inside the index
+   callback.  (index_entry on its own still has the Panic branch; b_write cannot
+   reach it: the IndexPanics condition below contradicts urls_ok.) *)
+Theorem b_write_never_panic : forall b, b_write b <> Panic.
+Proof. exact BundleWriteCases.b_write_never_panic. Qed.
+Print Assumptions b_write_never_panic.
 
+Theorem b_write_ok_or_err : forall b, b_write b = Err \/ exists bs, b_write b = Ok bs.
+Proof. exact BundleWriteCases.b_write_ok_or_err. Qed.
+Print Assumptions b_write_ok_or_err.
+
+Theorem urls_ok_no_index_panic : forall b, urls_ok b = true -> ~ IndexPanics b.
+Proof. exact BundleWriteCases.urls_ok_no_index_panic. Qed.
+Print Assumptions urls_ok_no_index_panic.
+
+Theorem b_write_b1_no_primary_err : forall b,
+  b_ver b = BV1 -> b_primary b = None -> b_write b = Err.
+Proof. exact BundleWriteCases.b_write_b1_no_primary_err. Qed.
+Print Assumptions b_write_b1_no_primary_err.
+
+(* error: a refused header map; else a refused exchange URL (not UTF-8, does not
+   parse, fragment, credentials); else a refusing index; else one of: b2 primary URL
+   not absolute / with fragment / not UTF-8, manifest in b2, manifest URL not absolute
+   / with fragment / not UTF-8, b1 primary URL that does not parse / not UTF-8, b1
+   without primary URL *)
 Theorem write_err_iff : forall b,
   b_write b = Err <->
-  DupHeader b \/
+  BadHeader b \/
   (headers_ok b = true /\
-   (IndexErrs b \/
-    (IndexFine b /\
-     ((b_ver b = BV2 /\ exists u, b_primary b = Some u /\ utf8_valid u = false)
-      \/ (b_ver b = BV2 /\ b_manifest b <> None)
-      \/ (exists u, b_manifest b = Some u /\ utf8_valid u = false)
-      \/ (b_ver b = BV1 /\ exists u, b_primary b = Some u /\ utf8_valid u = false))))).
+   (BadUrl b \/
+    (urls_ok b = true /\
+     (IndexErrs b \/ (IndexFine b /\ AfterIndexErr b))))).
 Proof. exact BundleWriteCases.write_err_iff. Qed.
 Print Assumptions write_err_iff.
 
-(* the header map of one exchange is refused iff two names coincide after case
-   folding (":status" included) *)
+(* the header map of one exchange is refused iff the status is not a three-digit
+   number, a name starts with ':' or is not ASCII, a comma-joined value is not
+   ASCII, or two names coincide after case folding (":status" included) *)
 Theorem header_map_refused_iff : forall st h,
   encode_response_header st h = Err <->
-  ~ NoDup (status_name :: map (fun nv => lower (fst nv)) h).
+  (st < 100 \/ 999 < st)%Z \/ forallb hdr_writable_b h = false
+  \/ ~ NoDup (status_name :: map (fun nv => lower (fst nv)) h).
 Proof. exact BundleWriteCases.erh_err_iff. Qed.
 Print Assumptions header_map_refused_iff.
 
-Theorem headers_ok_false_iff : forall b, headers_ok b = false <-> DupHeader b.
+Theorem headers_ok_false_iff : forall b, headers_ok b = false <-> BadHeader b.
 Proof. exact BundleWriteCases.headers_ok_false_iff. Qed.
 Print Assumptions headers_ok_false_iff.
+
+Theorem urls_ok_false_iff : forall b, urls_ok b = false <-> BadUrl b.
+Proof. exact BundleWriteCases.urls_ok_false_iff. Qed.
+Print Assumptions urls_ok_false_iff.
 
 (* grouping by URL, declaratively: the distinct URLs in order of first
    appearance, each with the entries carrying it, in order *)
@@ -352,7 +371,7 @@ Example ex_tamper :
   end = (None, None, None).
 Proof. vm_compute. reflexivity. Qed.
 
-(* each refusal / panic case occurs *)
+(* each refusal case occurs *)
 Definition with_x (b : bundle) (xs : list bexchange) : bundle :=
   {| b_ver := b_ver b; b_primary := b_primary b; b_manifest := b_manifest b; b_sigs := b_sigs b;
      b_exchanges := xs; b_taint := false |}.
@@ -370,28 +389,34 @@ Example ex_outcomes :
   (* manifest in b2 *)
   b_write {| b_ver := BV2; b_primary := None; b_manifest := Some (s2b "https://m/"); b_sigs := None;
              b_exchanges := []; b_taint := false |} = Err /\
-  (* b1 without primary URL: nil dereference *)
+  (* b1 without primary URL: an error (used to be a nil dereference) *)
   b_write {| b_ver := BV1; b_primary := None; b_manifest := None; b_sigs := None;
-             b_exchanges := []; b_taint := false |} = Panic /\
+             b_exchanges := []; b_taint := false |} = Err /\
+  (* status out of range; ':'-prefixed name; non-ASCII value; URL with fragment *)
+  b_write (with_x ex_b2 [{| bx_url := s2b "u"; bx_status := 1000; bx_hdr := []; bx_body := [] |}]) = Err /\
+  b_write (with_x ex_b2 [{| bx_url := s2b "u"; bx_status := 200; bx_hdr := [hd1 ":a" "1"]; bx_body := [] |}]) = Err /\
+  b_write (with_x ex_b2 [{| bx_url := s2b "u"; bx_status := 200; bx_hdr := [(s2b "a", [[233]])]; bx_body := [] |}]) = Err /\
+  b_write (with_x ex_b2 [{| bx_url := s2b "u#f"; bx_status := 200; bx_hdr := []; bx_body := [] |}]) = Err /\
+  (* b2 primary URL not absolute *)
+  b_write {| b_ver := BV2; b_primary := Some (s2b "/relative"); b_manifest := None; b_sigs := None;
+             b_exchanges := []; b_taint := false |} = Err /\
   (* a URL that is not valid UTF-8 *)
-  b_write (with_x ex_b2 [{| bx_url := [255]; bx_status := 200; bx_hdr := []; bx_body := [] |}]) = Panic /\
+  b_write (with_x ex_b2 [{| bx_url := [255]; bx_status := 200; bx_hdr := []; bx_body := [] |}]) = Err /\
+  (* a b1 primary URL that does not parse *)
+  b_write {| b_ver := BV1; b_primary := Some (s2b "%zz"); b_manifest := None; b_sigs := None;
+             b_exchanges := []; b_taint := false |} = Err /\
   b_write {| b_ver := BV2; b_primary := Some [255]; b_manifest := None; b_sigs := None;
              b_exchanges := []; b_taint := false |} = Err.
 Proof. vm_compute. repeat split. Qed.
 
-(* MODEL NOTE (reported, Model/Bundle.v not edited): for a b1 bundle, a URL that is
-   not valid UTF-8 and carries >= 2 exchanges with bad Variants coverage, the Go code
-   returns an ERROR (entriesInPossibleKeyOrder runs before the panicking callback:
-   probe on the unchanged tree with &url.URL{Scheme:"a",Opaque:"\xff"} twice gives
-   "cannot construct index entry ...: no Variants header"), while the model's
-   index_entry tests UTF-8 first and answers Panic.  With good coverage, or with one
-   exchange, both panic.  write_panic_iff / write_err_iff describe the model. *)
-Example ex_model_panic_vs_go_err :
+(* (The former model/Go discrepancy - a non-UTF-8 URL with bad Variants coverage: Go
+   error, model panic - has disappeared: both refuse the URL in checkURL first.) *)
+Example ex_non_utf8_url_err :
   b_write {| b_ver := BV1; b_primary := Some (s2b "https://example.com/"); b_manifest := None;
              b_sigs := None;
              b_exchanges := [ {| bx_url := [97; 58; 255]; bx_status := 200; bx_hdr := []; bx_body := [120] |};
                               {| bx_url := [97; 58; 255]; bx_status := 200; bx_hdr := []; bx_body := [120] |} ];
-             b_taint := false |} = Panic.
+             b_taint := false |} = Err.
 Proof. vm_compute. reflexivity. Qed.
 
 (* a destination failing after 20 bytes, fed the bundle in 7-byte chunks *)
